@@ -8,7 +8,7 @@ T4 = ["MsgSize"]
 PROOF_MODULES = ["GrpcProofs.Properties.C21"]
 THEOREMS = ["GrpcProofs.C21." + t for t in (
     "effective_is_min", "client_limits_are_min_or_default", "server_limits_are_options",
-    "oversend_never_transmitted", "overrecv_resource_exhausted", "within_limits_intact",
+    "oversend_never_transmitted", "prepared_msg_is_checked", "overrecv_resource_exhausted", "within_limits_intact",
     "rpc_outcome_complete")]
 DESIGN_REF = "DESIGN.md section 8, C21"
 TECHNIQUE = ("Lean 4 theorems (case analysis + omega) over a model of getMaxSize/minPointers, option precedence and the four size "
@@ -17,7 +17,8 @@ TECHNIQUE = ("Lean 4 theorems (case analysis + omega) over a model of getMaxSize
 LEVEL_TEXT = ("Machine-checked proof, for every combination of service-config, dial-option, call-option and server-option limits "
               "(negative ones included) and every message size, that the model's effective client limits are the default when nothing is "
               "set and otherwise the minimum of the set limits, that a request/reply whose post-compression size exceeds the sender's "
-              "limit is never transmitted and fails with RESOURCE_EXHAUSTED, that one whose wire or decompressed size exceeds the "
+              "limit is never transmitted and fails with RESOURCE_EXHAUSTED (whether handed to SendMsg as a message or as a pre-encoded "
+              "*grpc.PreparedMsg), that one whose wire or decompressed size exceeds the "
               "receiver's limit is not delivered and fails with RESOURCE_EXHAUSTED, and that everything within the limits is delivered "
               "with its exact size. The model is diffed against the real functions and against real RPCs on every run.")
 LEVEL_NOTE = ("Reading: 'dial/call option limit' = the per-call option when given, else the dial default (CallOptions are applied in "
@@ -25,12 +26,13 @@ LEVEL_NOTE = ("Reading: 'dial/call option limit' = the per-call option when give
               "cannot trigger for an int64). Intactness is by size and a constant-byte content check. Compression is represented by two "
               "harness compressors with known output sizes (n+16 and 9 bytes); an empty message is never compressed (compress()). "
               "Trusted: Lean kernel, the hand model, bufconn, synctest quiescence.")
-GAP = "streaming RPCs use the same checks (same functions) but only unary RPCs are driven; gzip itself is not modelled"
+GAP = "addrConnStream (health-check / ORCA internal streams) is not driven; gzip itself is not modelled"
 ASSUMPTIONS = ["int is 64 bits", "decompress(compress(x)) = x for the compressors in use"]
 RULE = ("msgsize: every None/Some combination of getMaxSize with values around each other, negative, zero, MaxInt32, MaxInt64; "
         "s_msgsize: exhaustive presence grid {service config, dial option, call option, server option} on the request side (response "
         "side small) and on the response side, limits from a small set (incl. 0 and -1), message sizes limit-1, limit, limit+1 for every "
-        "configured limit, without compression and with both compressors; plus the 4 MiB defaults. A case is non-trivial if it contains "
+        "configured limit, without compression and with both compressors, each through Invoke, through NewStream/SendMsg/RecvMsg "
+        "and as *grpc.PreparedMsg in both directions; plus the 4 MiB defaults. A case is non-trivial if it contains "
         "both an accepted and a rejected message.")
 
 MAXI = 2**63 - 1
@@ -72,6 +74,7 @@ def gen_t1(rng, tier):
 
 
 LIMS = [0, 1, 7, 50, 100, 150, 1000, 5000]
+MODES = ["unary", "stream", "prep"]
 
 
 def around(vals):
@@ -113,10 +116,13 @@ def gen_e2e(rng, tier):
                     szs = sizes if comp == "none" else (csizes if comp == "pad" else sizes + [9, 10, 8])
                     for n in sorted(set(szs)):
                         other = rng.choice([0, 3, 10])
-                        if side == "req":
-                            ops.append("call %s %s %s %d %d" % (opt(call), opt(o_call), comp, n, other))
-                        else:
-                            ops.append("call %s %s %s %d %d" % (opt(o_call), opt(call), comp, other, n))
+                        # every boundary size through every send API: Invoke, the streaming API, and
+                        # *grpc.PreparedMsg (encoded ahead of SendMsg) in both directions
+                        for mode in MODES:
+                            if side == "req":
+                                ops.append("call %s %s %s %d %d %s" % (opt(call), opt(o_call), comp, n, other, mode))
+                            else:
+                                ops.append("call %s %s %s %d %d %s" % (opt(o_call), opt(call), comp, other, n, mode))
                 yield Case("s_msgsize", ops, "grid-%s-%d" % (side, k))
                 k += 1
     # defaults: 4 MiB receive limits on both sides
@@ -128,6 +134,9 @@ def gen_e2e(rng, tier):
     ops.append("call - - pad %d 1" % (4194304 - 15))
     ops.append("call - - rle 4194304 4194305")
     ops.append("call - - rle 4194305 1")
+    ops.append("call - - none 4194305 1 prep")
+    ops.append("call - - none 1 4194305 prep")
+    ops.append("call - - none 4194304 4194304 stream")
     yield Case("s_msgsize", ops, "defaults")
     # service config larger than the default and alone: it IS the limit (no min with the default)
     yield Case("s_msgsize", ["cfg - 5000000 - - - -", "call - - none 1 4194305", "call - - none 1 5000000", "call - - none 1 5000001",
@@ -140,7 +149,7 @@ def gen_e2e(rng, tier):
         for _ in range(12):
             cs, cr = [rng.choice(LIMS) if rng.random() < 0.35 else None for _ in range(2)]
             pool = around(v + [cs, cr]) + [9, 16, 17]
-            ops.append("call %s %s %s %d %d" % (opt(cs), opt(cr), rng.choice(comps), rng.choice(pool), rng.choice(pool)))
+            ops.append("call %s %s %s %d %d %s" % (opt(cs), opt(cr), rng.choice(comps), rng.choice(pool), rng.choice(pool), rng.choice(MODES)))
         yield Case("s_msgsize", ops, "mix-%d" % i)
 
 
